@@ -25,6 +25,18 @@ int main(void)
 			unsigned long long sum = 0, i;
 			for (i = 0; i < a; i++) { of_rfc5170_rand(1); sum = (sum * 31 + of_seed) % 2305843009213693951ULL; }
 			printf("@ok seed=%llu sum=%llu\n", of_seed, sum);
+		} else if (sscanf(line, "rand verify %llu", &a) == 1) {
+			/* walk a steps from the current state; compare each state and a scaled output with the definition
+			 * (64-bit integer arithmetic, independent of the library's code); report the first mismatch */
+			unsigned long long i, bad_at = 0, bad_state = 0, bad_out = 0, exp_state = 0;
+			for (i = 0; i < a; i++) {
+				unsigned long long s0 = of_seed, maxv = (i % 3 == 0) ? 255ULL * 50000ULL : (i % 3 == 1 ? 50000ULL : 3ULL);
+				unsigned long long o = of_rfc5170_rand(maxv);
+				unsigned long long es = (16807ULL * s0) % 2147483647ULL;
+				unsigned long long eo = (unsigned long long)(((unsigned __int128)es * maxv) / 2147483647ULL);
+				if (of_seed != es || o != eo) { bad_at = i + 1; bad_state = s0; bad_out = o; exp_state = es; break; }
+			}
+			printf("@ok steps=%llu bad_at=%llu from=%llu got_state=%llu exp_state=%llu got_out=%llu\n", i, bad_at, bad_state, of_seed, exp_state, bad_out);
 		} else if (sscanf(line, "block %llu %llu %llu", &a, &b, &c) == 3) {
 			of_blocking_struct_t bs;
 			memset(&bs, 0, sizeof bs);
